@@ -367,3 +367,65 @@ Proof.
     eapply Forall_impl; [|exact HF]. cbn. intros x Hx. nia. }
   destruct (apply_locations_in allowed R ths [] Hpos eq_refl Hths) as [A1 A2]. split; auto. lia.
 Qed.
+
+(* the oversubscription fallback of parsec_select_vpmap_thread_core: whatever the candidates (indexes >= 0
+   relative to the allowed cpuset), the cores already used and the fallback remembered so far, the result
+   is an allowed core or "not bound" -- never an index that was not translated *)
+Lemma find_core_allowed_or_none : forall allowed w, 0 <= w ->
+  find_core_by_idx allowed w = -1 \/ In (find_core_by_idx allowed w) allowed.
+Proof.
+  intros allowed w Hw. unfold find_core_by_idx. replace (w <? 0) with false by lia.
+  destruct (nth_in_or_default (Z.to_nat w) allowed (-1)); auto.
+Qed.
+Theorem select_core_allowed_or_unbound : forall allowed used cands first,
+  Forall (fun w => 0 <= w) cands -> (first = -1 \/ In first allowed) ->
+  select_core allowed used cands first = -1 \/ In (select_core allowed used cands first) allowed.
+Proof.
+  intros allowed used cands. induction cands as [|w t IH]; intros first Hc Hf; cbn [select_core]; auto.
+  inv Hc. destruct (find_core_by_idx allowed w <? 0) eqn:E; [apply IH; auto|].
+  destruct (find_core_allowed_or_none allowed w H1) as [Hn|Hin]; [lia|].
+  destruct (negb (zmem (find_core_by_idx allowed w) used)); auto.
+  apply IH; auto. destruct (first <? 0); auto.
+Qed.
+
+Lemma apply_locations_allowed : forall allowed R ths used,
+  Forall (fun t => Forall (fun w => 0 <= w) (thread_cands R t)) ths ->
+  Forall (fun c => c = -1 \/ In c allowed) (apply_locations allowed used R ths).
+Proof.
+  intros allowed R ths. induction ths as [|t r IH]; intros used H; cbn [apply_locations]; constructor.
+  - inv H. apply select_core_allowed_or_unbound; auto.
+  - inv H. apply IH; auto.
+Qed.
+
+Lemma zseq_nonneg : forall n lo, 0 <= lo -> Forall (fun w => 0 <= w) (zseq lo n).
+Proof. intros n lo H. apply Forall_forall. intros x Hx. apply zseq_In in Hx. lia. Qed.
+
+(* every flat map, oversubscribed or not, on every cpuset: each thread ends on an allowed core or unbound *)
+Theorem flat_bindings_never_escape : forall allowed sing nb numcores cores, 1 <= Z.of_nat (length allowed) ->
+  user_flat_bindings_nc allowed sing nb numcores = Some cores ->
+  Forall (fun c => c = -1 \/ In c allowed) cores.
+Proof.
+  intros allowed sing nb numcores cores HR H. unfold user_flat_bindings_nc, flat in H.
+  set (R := Z.of_nat (length allowed)) in *.
+  assert (Hn : 1 <= over_nb R nb numcores).
+  { unfold over_nb. destruct (numcores <=? 0) eqn:E1; destruct (nb <=? 0) eqn:E2; lia. }
+  set (n := over_nb R nb numcores) in *.
+  replace (n =? -1) with false in H by lia. replace (n =? 0) with false in H by lia. inv H.
+  apply apply_locations_allowed. apply Forall_forall. intros t Ht.
+  apply in_map_iff in Ht. destruct Ht as (t0 & <- & Ht0).
+  unfold flat_threads in Ht0. apply in_map_iff in Ht0. destruct Ht0 as (id & <- & Hid).
+  apply zseq_In in Hid.
+  set (step := if sing =? -1 then 1 else R / n).
+  assert (Hstep : 0 <= step).
+  { unfold step. destruct (sing =? -1); [lia|]. apply Z.div_pos; lia. }
+  unfold thread_cands, consolidate, set_range. cbn [t_set].
+  destruct ((id + 1) * step - 1 =? -1).
+  - destruct (0 <? sing); cbn; [constructor; [lia|constructor]|apply zseq_nonneg; lia].
+  - destruct (Z.to_nat ((id + 1) * step - 1 - id * step + 1)) as [|k] eqn:Ek; cbn [zseq].
+    + destruct (0 <? sing); cbn; constructor.
+    + assert (Hz : Forall (fun w => 0 <= w) (id * step :: zseq (id * step + 1) k)) by (apply (zseq_nonneg (S k)); nia).
+      destruct (0 <? sing); cbn [singlify]; auto.
+      constructor; [|constructor].
+      destruct (fold_min_le (zseq (id * step + 1) k) (id * step)) as [_ Hin].
+      rewrite Forall_forall in Hz. apply Hz. exact Hin.
+Qed.
